@@ -568,7 +568,27 @@ func genThrowProgram(rt *rapid.T) (src string, sites []site) {
 		}
 	}
 	throwStmt := func(indent string) (string, int) {
-		switch rapid.IntRange(0, 6).Draw(rt, "throw") {
+		switch rapid.IntRange(0, 16).Draw(rt, "throw") {
+		case 7:
+			return indent + "x += t.s[x+7]\n", 1
+		case 8:
+			return indent + "x -= x / zero\n", 1
+		case 9:
+			return indent + "t.s[0] *= x / zero\n", 1
+		case 10:
+			return indent + "x /= zero\n", 1
+		case 11:
+			return indent + "var y = t.s[x+9]\n" + indent + "x = y\n", 1
+		case 12:
+			return indent + "if t.s[x+5] > 0 {\n" + indent + "\tx++\n" + indent + "}\n", 1
+		case 13:
+			return indent + "switch t.s[x+5] {\n" + indent + "case 1:\n" + indent + "\tx++\n" + indent + "}\n", 1
+		case 14:
+			return indent + "for _, v := range t.s[x+5:] {\n" + indent + "\tx += v\n" + indent + "}\n", 1
+		case 15:
+			return indent + "x, zero = t.s[x+5], x\n", 1
+		case 16:
+			return indent + "for i := 0; i < 2; i += t.s[x+5] {\n" + indent + "\tx++\n" + indent + "}\n", 1
 		case 0:
 			return indent + "panic(\"boom\")\n", 1
 		case 1:
